@@ -99,7 +99,7 @@ func (f *Frame) tryLoad(p Val, t types.Type, h *Heap) (Term, bool) {
 		return Sel(h.Comp(memCompT(a.Elem()), memSort(es)), p.T), true
 	}
 	so := f.w.Sorts.SortOf(t)
-	return Sel(h.Comp(cellComp(so), ArraySort(SInt, so)), p.T), true
+	return f.vc.SelectThrough(h.Comp(cellComp(so), ArraySort(SInt, so)), p.T), true
 }
 
 func (f *Frame) store(p Val, t types.Type, v Term, h *Heap) *Heap {
